@@ -11,14 +11,23 @@
      Refuse v (Direct e)      "errno = e; return v;"            (error function not called)
      Refuse v (Via c)         "_vna*_error(..., c, ...); return v;"  (one call of the error function,
                               errno = gen_errno_of c by _vnaerr_verror)
+     Fault                    the C code dereferences the NULL object pointer it was given (no answer)
    The work itself (copying cells, reallocating, ...) is abstracted: only its effect on the summary
    is modelled (sum_after), because later checks depend on nothing else.
 
-   C int arguments are Z; overflow of rows * columns (D40) is outside this model.  The four z0 port
-   tests take their comparison operator from the C text (LV.Gen.ErrnoGen.gen_*_strict, candidate D4). *)
+   What comes from the C text (LV.Gen.ErrnoGen, regenerated on every run):
+     gen_order_<function>    the order of handle tests, argument checks and writes in the body
+     gen_handle_<function>   (the NULL test precedes every dereference, the magic number is tested)
+     gen_*_strict            the comparison operator of the four z0 port tests (candidate D4)
+   A step of the object (data_step, query_step) is a run of the machine of LV.Err.OrderModel over the
+   body assembled from the generated order and the hand-written checks (data_checks: one entry per
+   refusing top-level C statement, in the order of the C text).
+
+   C int arguments are Z; the rows * columns test of vnadata_resize (INT_MAX / rows, repair of D40) is
+   modelled with INT_MAX = 2^31 - 1; wrap-around of other int arithmetic is outside this model. *)
 Require Import List ZArith Bool.
 Import ListNotations.
-Require Import LV.Err.ErrBase LV.Gen.ErrnoGen.
+Require Import LV.Err.ErrBase LV.Gen.ErrnoGen LV.Err.OrderModel.
 Open Scope Z_scope.
 
 (* ------------------------------------------------------------------ vnadata *)
@@ -68,12 +77,70 @@ Definition doc_fval (c : dcall) : fval :=
   | _ => VM1
   end.
 
-(* functions that test vdp == NULL before anything else (the others dereference it) *)
-Definition null_checked (c : dcall) : bool :=
+(* the C function behind each call: its generated order of events and its handle tests *)
+Definition dcall_order (c : dcall) : list ev :=
   match c with
-  | CSetFrequency _ => false
-  | _ => true
+  | CInit _ _ _ _ => gen_order_vnadata_init
+  | CResize _ _ _ _ => gen_order_vnadata_resize
+  | CSetType _ => gen_order_vnadata_set_type
+  | CGetFrequency _ => gen_order_vnadata_get_frequency
+  | CSetFrequency _ => gen_order_vnadata_set_frequency
+  | CGetFmin => gen_order_vnadata_get_fmin
+  | CGetFmax => gen_order_vnadata_get_fmax
+  | CGetCell _ _ _ => gen_order_vnadata_get_cell
+  | CSetCell _ _ _ => gen_order_vnadata_set_cell
+  | CGetMatrix _ => gen_order_vnadata_get_matrix
+  | CSetMatrix _ => gen_order_vnadata_set_matrix
+  | CGetToVector _ _ => gen_order_vnadata_get_to_vector
+  | CSetFromVector _ _ => gen_order_vnadata_set_from_vector
+  | CGetZ0 _ => gen_order_vnadata_get_z0
+  | CSetZ0 _ => gen_order_vnadata_set_z0
+  | CGetZ0Vector => gen_order_vnadata_get_z0_vector
+  | CSetZ0Vector => gen_order_vnadata_set_z0_vector
+  | CSetAllZ0 => gen_order_vnadata_set_all_z0
+  | CGetFz0 _ _ => gen_order_vnadata_get_fz0
+  | CSetFz0 _ _ => gen_order_vnadata_set_fz0
+  | CGetFz0Vector _ => gen_order_vnadata_get_fz0_vector
+  | CSetFz0Vector _ => gen_order_vnadata_set_fz0_vector
+  | CAddFrequency _ => gen_order_vnadata_add_frequency
+  | CSetFiletype _ => gen_order_vnadata_set_filetype
+  | CSetFprecision _ => gen_order_vnadata_set_fprecision
+  | CSetDprecision _ => gen_order_vnadata_set_dprecision
   end.
+
+Definition dcall_handle (c : dcall) : bool * bool :=
+  match c with
+  | CInit _ _ _ _ => gen_handle_vnadata_init
+  | CResize _ _ _ _ => gen_handle_vnadata_resize
+  | CSetType _ => gen_handle_vnadata_set_type
+  | CGetFrequency _ => gen_handle_vnadata_get_frequency
+  | CSetFrequency _ => gen_handle_vnadata_set_frequency
+  | CGetFmin => gen_handle_vnadata_get_fmin
+  | CGetFmax => gen_handle_vnadata_get_fmax
+  | CGetCell _ _ _ => gen_handle_vnadata_get_cell
+  | CSetCell _ _ _ => gen_handle_vnadata_set_cell
+  | CGetMatrix _ => gen_handle_vnadata_get_matrix
+  | CSetMatrix _ => gen_handle_vnadata_set_matrix
+  | CGetToVector _ _ => gen_handle_vnadata_get_to_vector
+  | CSetFromVector _ _ => gen_handle_vnadata_set_from_vector
+  | CGetZ0 _ => gen_handle_vnadata_get_z0
+  | CSetZ0 _ => gen_handle_vnadata_set_z0
+  | CGetZ0Vector => gen_handle_vnadata_get_z0_vector
+  | CSetZ0Vector => gen_handle_vnadata_set_z0_vector
+  | CSetAllZ0 => gen_handle_vnadata_set_all_z0
+  | CGetFz0 _ _ => gen_handle_vnadata_get_fz0
+  | CSetFz0 _ _ => gen_handle_vnadata_set_fz0
+  | CGetFz0Vector _ => gen_handle_vnadata_get_fz0_vector
+  | CSetFz0Vector _ => gen_handle_vnadata_set_fz0_vector
+  | CAddFrequency _ => gen_handle_vnadata_add_frequency
+  | CSetFiletype _ => gen_handle_vnadata_set_filetype
+  | CSetFprecision _ => gen_handle_vnadata_set_fprecision
+  | CSetDprecision _ => gen_handle_vnadata_set_dprecision
+  end.
+
+(* the function tests vdp == NULL before it dereferences vdp (read from the C text; as found, the
+   inline vnadata_set_frequency of vnadata.h does not) *)
+Definition null_checked (c : dcall) : bool := fst (dcall_handle c).
 
 (* validate_type() of vnadata_alloc.c: true = consistent *)
 Definition validate_type (t r c : Z) : bool :=
@@ -89,11 +156,16 @@ Definition bad_port (strict : bool) (p n : Z) : bool :=
 
 Definition usage (v : fval) : outcome := Refuse v (Via USAGE).
 
+Definition int_max : Z := 2147483647.
+(* "rows != 0 && columns > INT_MAX / rows" (rows >= 0 here: C division = Z division) *)
+Definition too_large (r c : Z) : bool := negb (r =? 0) && (c >? int_max / r).
+
 Definition check_resize (t r c f : Z) : outcome :=
   if r <? 0 then usage VM1
   else if c <? 0 then usage VM1
   else if f <? 0 then usage VM1
   else if negb (validate_type t r c) then usage VM1
+  else if too_large r c then usage VM1
   else Pass.
 
 Definition check_data_some (s : dsum) (c : dcall) : outcome :=
@@ -134,10 +206,37 @@ Definition check_data_some (s : dsum) (c : dcall) : outcome :=
   | CSetFprecision p | CSetDprecision p => if p <? 1 then usage v else Pass
   end.
 
-(* with the handle: NULL is answered by "errno = EINVAL; return <failure>" without a report *)
+(* the same tests as a list: one entry per refusing top-level statement of the C function, in the
+   order of the C text (true = report VNAERR_USAGE and return the failure value) *)
+Definition data_checks (c : dcall) : list (dsum -> bool) :=
+  match c with
+  | CInit t r cc f | CResize t r cc f =>
+      [fun _ => r <? 0; fun _ => cc <? 0; fun _ => f <? 0; fun _ => negb (validate_type t r cc); fun _ => too_large r cc]
+  | CSetType t => [fun s => negb (validate_type t (d_rows s) (d_cols s))]
+  | CGetFrequency i | CSetFrequency i | CGetMatrix i | CSetMatrix i | CGetFz0Vector i | CSetFz0Vector i =>
+      [fun s => bad_index i (d_freqs s)]
+  | CGetFmin | CGetFmax => [fun s => d_freqs s =? 0]
+  | CGetCell f r cc | CSetCell f r cc =>
+      [fun s => bad_index f (d_freqs s); fun s => bad_index r (d_rows s); fun s => bad_index cc (d_cols s)]
+  | CGetToVector r cc | CSetFromVector r cc => [fun s => bad_index r (d_rows s); fun s => bad_index cc (d_cols s)]
+  | CGetZ0 p => [fun s => bad_port gen_get_z0_strict p (ports s); fun s => d_fz0 s]
+  | CSetZ0 p => [fun s => bad_port gen_set_z0_strict p (ports s)]
+  | CGetZ0Vector => [fun s => d_fz0 s]
+  | CSetZ0Vector | CSetAllZ0 => []
+  | CGetFz0 f p => [fun s => bad_index f (d_freqs s); fun s => bad_port gen_get_fz0_strict p (ports s)]
+  | CSetFz0 f p => [fun s => bad_index f (d_freqs s); fun s => bad_port gen_set_fz0_strict p (ports s)]
+  | CAddFrequency neg => [fun _ => neg]
+  | CSetFiletype t => [fun _ => negb ((0 <=? t) && (t <=? 3))]
+  | CSetFprecision p | CSetDprecision p => [fun _ => p <? 1]
+  end.
+
+(* with the handle: a NULL pointer is answered by "errno = EINVAL; return <failure>" without a
+   report by the functions that test it; the others dereference it.  (None is the NULL pointer only:
+   a pointer to something that is not a vnadata_t is outside the model; the inline accessors of
+   vnadata.h do not test the magic number, see gen_handle_*.) *)
 Definition check_data (h : option dsum) (c : dcall) : outcome :=
   match h with
-  | None => Refuse (doc_fval c) (Direct E_INVAL)
+  | None => if null_checked c then Refuse (doc_fval c) (Direct E_INVAL) else Fault
   | Some s => check_data_some s c
   end.
 
@@ -156,29 +255,35 @@ Definition sum_after (s : dsum) (c : dcall) : dsum :=
   | _ => s
   end.
 
-(* what a refused call leaves behind: everything returns before its first write, except
-   vnadata_init, which has already emptied the object when the final resize refuses *)
-Definition sum_refused (s : dsum) (c : dcall) : dsum :=
-  match c with
-  | CInit _ _ _ _ => cleared s
-  | _ => s
-  end.
+Definition is_init (c : dcall) : bool := match c with CInit _ _ _ _ => true | _ => false end.
 
-(* an object = summary + everything else (cells, frequencies, z0 values, save options), abstract *)
+(* an object = summary + everything else (cells, frequencies, z0 values, save options), abstract.
+   A step runs the body assembled from the generated order of the C function: every EvC event takes
+   the next entry of data_checks, every write event k applies the abstract mutation work c k to the
+   rest of the object; on the summary the last write of the body has the effect sum_after, and the
+   first write of vnadata_init (its vnadata_resize(vdp, VPT_UNDEF, 0, 0, 0)) the effect cleared. *)
 Section DataStep.
   Variable payload : Type.
   Record dobj : Type := mkdobj { o_sum : dsum; o_rest : payload }.
-  Variable work : dobj -> dcall -> payload.        (* the abstracted mutation *)
-  Variable wipe : payload -> payload.              (* vnadata_init's clearing of cells / z0 *)
+  Variable work : dcall -> nat -> dobj -> payload.        (* the abstracted k-th mutation of the call *)
 
+  Definition sum_write (c : dcall) (n k : nat) (s : dsum) : dsum :=
+    if Nat.eqb (S k) n then sum_after s c
+    else if is_init c && Nat.eqb k 0 then cleared s
+    else s.
+
+  Definition data_write (c : dcall) (n k : nat) (o : dobj) : dobj * option refusal :=
+    (mkdobj (sum_write c n k (o_sum o)) (work c k o), None).
+
+  Definition data_check_acts (c : dcall) : list (dobj -> option refusal) :=
+    map (fun (p : dsum -> bool) (o : dobj) => if p (o_sum o) then Some (doc_fval c, Via USAGE) else None) (data_checks c).
+
+  Definition data_body (c : dcall) : list (act dobj) :=
+    assemble (dcall_order c) (data_check_acts c) [] (data_write c (count_writes (dcall_order c))) 0%nat.
+
+  Definition data_run (o : dobj) (c : dcall) : dobj * mres := run (data_body c) o.
   Definition data_step (o : dobj) (c : dcall) : dobj * outcome :=
-    match check_data_some (o_sum o) c with
-    | Pass => (mkdobj (sum_after (o_sum o) c) (work o c), Pass)
-    | r => (match c with
-            | CInit _ _ _ _ => mkdobj (cleared (o_sum o)) (wipe (o_rest o))
-            | _ => o
-            end, r)
-    end.
+    let (o', m) := data_run o c in (o', outcome_of m).
 End DataStep.
 
 Definition data_inv (s : dsum) : Prop :=
@@ -194,6 +299,7 @@ Definition doc_data_refusal (h : option dsum) (c : dcall) (o : outcome) : Prop :
       v = doc_fval c /\
       match r with Direct e => e | Via cat => doc_errno cat end = E_INVAL /\
       callbacks r = match h with None => 0%nat | Some _ => 1%nat end
+  | Fault => False
   end.
 
 (* specification side: which argument tuples the manual allows (indices within the dimensions,
@@ -201,7 +307,8 @@ Definition doc_data_refusal (h : option dsum) (c : dcall) (o : outcome) : Prop :
 Definition in_range (i n : Z) : bool := (0 <=? i) && (i <? n).
 Definition doc_data_valid (s : dsum) (c : dcall) : bool :=
   match c with
-  | CInit t r cc f | CResize t r cc f => (0 <=? r) && (0 <=? cc) && (0 <=? f) && validate_type t r cc
+  | CInit t r cc f | CResize t r cc f =>
+      (0 <=? r) && (0 <=? cc) && (0 <=? f) && validate_type t r cc && negb (too_large r cc)    (* rows * columns fits an int *)
   | CSetType t => validate_type t (d_rows s) (d_cols s)
   | CGetFrequency i | CSetFrequency i | CGetMatrix i | CSetMatrix i | CGetFz0Vector i | CSetFz0Vector i =>
       in_range i (d_freqs s)
@@ -236,11 +343,29 @@ Definition slots := list (option Z).
 Definition slot_at (sl : slots) (ci : Z) : option Z :=
   if (ci <? 0) || (ci >=? Z.of_nat (length sl)) then None else nth (Z.to_nat ci) sl None.
 
+(* the silent getters of vnacal_get.c and the vnacal_property_* functions, with the failure value of
+   their C return type (vnacal(3) SYNOPSIS) *)
+Inductive getter : Type :=
+| GName | GType | GRows | GColumns | GFrequencies | GFmin | GFmax | GFrequencyVector | GZ0.
+Definition getter_fval (g : getter) : fval :=
+  match g with
+  | GName | GFrequencyVector => VNULL
+  | GType | GRows | GColumns | GFrequencies => VM1
+  | GFmin | GFmax | GZ0 => VHUGE
+  end.
+Inductive propfn : Type :=
+| PfType | PfCount | PfKeys | PfGet | PfSet | PfDelete | PfGetSubtree | PfSetSubtree.
+Definition propfn_fval (f : propfn) : fval :=
+  match f with
+  | PfType | PfCount | PfSet | PfDelete => VM1
+  | PfKeys | PfGet | PfGetSubtree | PfSetSubtree => VNULL
+  end.
+
 Inductive qcall : Type :=
-| QGet (v : fval) (ci : Z)          (* vnacal_get_name/type/rows/.../z0: v = its failure value *)
+| QGet (g : getter) (ci : Z)        (* vnacal_get_name/type/rows/.../z0 *)
 | QFind (name : Z)
 | QDelete (ci : Z)
-| QProperty (v : fval) (ci : Z).    (* vnacal_property_*: ci = -1 is the global root *)
+| QProperty (f : propfn) (ci : Z).  (* the ci argument of vnacal_property_*: ci = -1 is the global root *)
 
 (* _vnacal_get_calibration *)
 Definition check_get (sl : slots) (v : fval) (ci : Z) : outcome :=
@@ -260,20 +385,41 @@ Fixpoint find_from (sl : slots) (name : Z) (k : Z) : option Z :=
   end.
 Definition find_slot (sl : slots) (name : Z) : option Z := find_from sl name 0.
 
+Definition query_fval (c : qcall) : fval :=
+  match c with QGet g _ => getter_fval g | QFind _ => VM1 | QDelete _ => VM1 | QProperty f _ => propfn_fval f end.
+
 Definition check_query_some (sl : slots) (c : qcall) : outcome :=
   match c with
-  | QGet v ci => check_get sl v ci
+  | QGet g ci => check_get sl (getter_fval g) ci
   | QFind name => match find_slot sl name with Some _ => Pass | None => Refuse VM1 (Direct E_NOENT) end
   | QDelete ci => match slot_at sl ci with Some _ => Pass | None => Refuse VM1 (Direct E_NOENT) end
-  | QProperty v ci => if ci =? -1 then Pass else check_get sl v ci
+  | QProperty f ci => if ci =? -1 then Pass else check_get sl (propfn_fval f) ci
   end.
 
-Definition query_fval (c : qcall) : fval :=
-  match c with QGet v _ => v | QFind _ => VM1 | QDelete _ => VM1 | QProperty v _ => v end.
+(* order of events and handle tests of the C function behind each call.  The nine getters share
+   _vnacal_get_calibration; the translator checks that each of them takes a const vnacal_t *, does
+   nothing but that look-up and writes nothing (gen_query_getters_readonly) - otherwise the order
+   [write; check] stands for "unknown". *)
+Definition qcall_order (c : qcall) : list ev :=
+  match c with
+  | QGet _ _ => if gen_query_getters_readonly then gen_order_vnacal_get_calibration else [EvX; EvC]
+  | QFind _ => gen_order_vnacal_find_calibration
+  | QDelete _ => gen_order_vnacal_delete_calibration
+  | QProperty _ _ => gen_order_vnacal_property_root
+  end.
+Definition qcall_handle (c : qcall) : bool * bool :=
+  match c with
+  | QGet _ _ => gen_handle_vnacal_get_calibration
+  | QFind _ => gen_handle_vnacal_find_calibration
+  | QDelete _ => gen_handle_vnacal_delete_calibration
+  | QProperty _ _ => gen_handle_vnacal_property_root
+  end.
 
+(* None = the NULL pointer (a pointer to something else is outside the model; all these functions
+   also test vc_magic, see the gen_handle definitions) *)
 Definition check_query (h : option slots) (c : qcall) : outcome :=
   match h with
-  | None => Refuse (query_fval c) (Direct E_INVAL)      (* vcp == NULL || bad magic *)
+  | None => if fst (qcall_handle c) then Refuse (query_fval c) (Direct E_INVAL) else Fault
   | Some sl => check_query_some sl c
   end.
 
@@ -290,11 +436,21 @@ Definition slots_after (sl : slots) (c : qcall) : slots :=
   | _ => sl
   end.
 
-Definition query_step (sl : slots) (c : qcall) : slots * outcome :=
-  match check_query_some sl c with
-  | Pass => (slots_after sl c, Pass)
-  | r => (sl, r)
-  end.
+(* a step on the slot table: the checks, then the work (the deletion) - when the generated order of
+   the C function has every check in front of its first write; an early successful exit that writes
+   (the "return 0" branch of vnacal_delete_calibration) is not a write in front of a check.  pre is
+   the arbitrary effect of a write the model knows nothing about (used only when the order is not
+   checks-first). *)
+Section QueryStep.
+  Variable pre : slots -> slots.
+  Definition query_body (c : qcall) : list (act slots) :=
+    two_phase (checks_first (qcall_order c)) pre
+      (fun sl => match check_query_some sl c with Refuse v r => Some (v, r) | _ => None end)
+      (fun sl => (slots_after sl c, None)).
+  Definition query_run (sl : slots) (c : qcall) : slots * mres := run (query_body c) sl.
+  Definition query_step (sl : slots) (c : qcall) : slots * outcome :=
+    let (sl', m) := query_run sl c in (sl', outcome_of m).
+End QueryStep.
 
 (* _vnacal_add_calibration_common (after the D8 fix: the slot index is returned) *)
 Fixpoint first_free_from (sl : slots) (k : Z) : option Z :=
@@ -339,9 +495,10 @@ Definition doc_query_refusal (h : option slots) (c : qcall) (o : outcome) : Prop
       | Direct e => match h, c with
                     | None, _ => e = E_INVAL                        (* invalid vnacal_t *)
                     | Some _, QFind _ => e = E_NOENT               (* "name ... wasn't found" *)
-                    | Some _, QDelete _ => e = E_NOENT \/ e = E_INVAL
+                    | Some _, QDelete _ => e = E_NOENT \/ e = E_INVAL   (* vnacal(3) names no class for a missing index *)
                     | Some _, _ => e = E_INVAL
                     end
       | Via _ => False
       end
+  | Fault => False
   end.
